@@ -148,8 +148,45 @@ def probe_forced():
     return {"ok": e1 <= 1e-13 and e2 <= 1e-13, "e_zero": e1, "e_force": e2}
 
 
+def probe_aux_shapes(n, incl, cst):
+    """auxiliary inputs that are ARRAYS with several rows / PYTREES (a multi-channel forcing, a dict of leaves), held
+    constant or consumed in order: exact comparison with the naive Python loop on integer-valued bookkeeping steppers"""
+    import jax.numpy as jnp
+    import exponax as ex
+    rng = np.random.default_rng(100 + n)
+    u0 = rng.integers(-3, 4, size=(2, 3)).astype(np.int64)
+
+    def step(u, aux):
+        return 2 * u - 1 + aux["p"] * jnp.asarray([[1, 10, 100], [1000, 10000, 100000]]) + aux["q"][None, :] * 7
+    if cst:
+        aux = {"p": rng.integers(-4, 5, size=(2, 3)).astype(np.int64), "q": rng.integers(-4, 5, size=(3,)).astype(np.int64)}
+        per_step = [aux] * n
+    else:
+        aux = {"p": rng.integers(-4, 5, size=(n, 2, 3)).astype(np.int64), "q": rng.integers(-4, 5, size=(n, 3)).astype(np.int64)}
+        per_step = [{"p": aux["p"][i], "q": aux["q"][i]} for i in range(n)]
+    jaux = {k: jnp.asarray(v) for k, v in aux.items()}
+    got = np.asarray(ex.rollout(step, n, include_init=incl, takes_aux=True, constant_aux=cst)(jnp.asarray(u0), jaux))
+    cur, want = u0.copy(), ([u0.copy()] if incl else [])
+    for a in per_step:
+        cur = np.asarray(step(jnp.asarray(cur), {k: jnp.asarray(v) for k, v in a.items()}))
+        want.append(cur.copy())
+    want = np.stack(want) if want else np.zeros((0, 2, 3), dtype=np.int64)
+    ok = got.shape == want.shape and bool(np.array_equal(got, want))
+    rep = np.asarray(ex.repeat(step, n, takes_aux=True, constant_aux=cst)(jnp.asarray(u0), jaux))
+    ok = ok and bool(np.array_equal(rep, cur))
+    return {"ok": bool(ok), "shape": list(got.shape), "max_abs_diff": int(np.max(np.abs(got - want))) if got.shape == want.shape and got.size else 0}
+
+
 def oracle(ctx, deep):
     fails = []
+    for n in ([0, 1, 2, 3] if not deep else list(range(0, 7))):
+        for incl in (False, True):
+            for cst in (False, True):
+                r = probe_aux_shapes(n, incl, cst)
+                ctx.count(("oracle_aux_shapes", n, incl, cst))
+                if not r["ok"]:
+                    fails.append({"key": f"C14:aux:constant_aux={cst}", "what": f"rollout/repeat with array/pytree aux differ from the naive loop (n={n}, include_init={incl}, constant_aux={cst}): {r}",
+                                  "probe": "aux_shapes", "args": {"n": n, "incl": incl, "cst": cst}, "observed": r})
     ns = [0, 1, 2, 5] if not deep else list(range(0, 9))
     for n in ns:
         for incl in (False, True):
@@ -175,4 +212,4 @@ def oracle(ctx, deep):
 
 
 def replay(probe, args):
-    return {"naive": probe_naive, "repeated": probe_repeated, "forced": probe_forced}[probe](**args)
+    return {"naive": probe_naive, "repeated": probe_repeated, "forced": probe_forced, "aux_shapes": probe_aux_shapes}[probe](**args)
